@@ -11,6 +11,7 @@ import (
 	"fmt"
 	"hash/fnv"
 	"os"
+	"os/exec"
 	"path/filepath"
 	"runtime"
 	"sort"
@@ -110,6 +111,9 @@ type Violation struct {
 	Trace    []string `json:"trace"`
 	Detail   string   `json:"detail"`
 	File     string   `json:"file,omitempty"`
+	// Window: when the violation only shows after earlier executions of the same process (state kept by
+	// the code under test between unrelated uses), the choice lists of those executions, in order; Path is the last one.
+	Window [][]int `json:"window,omitempty"`
 }
 
 type KnownFinding struct {
@@ -174,6 +178,7 @@ type X struct {
 	KnownHits  map[string]int64
 	known      []KnownFinding
 
+	recent    [][]int // choice lists of the most recent executions of the current family (oldest first)
 	pending   *Violation
 	replay    *Violation
 	replayHit []Violation
@@ -294,8 +299,15 @@ func (x *X) Explore(family string, opts ExploreOpts, body func(c *Chooser)) {
 		}
 		x.curFamily = family
 		n := 3
-		if opts.Cold {
+		if opts.Cold || len(x.replay.Window) > 0 {
 			n = 1
+		}
+		// a window replay first re-runs the earlier executions of the process, quietly
+		for wi := 0; wi+1 < len(x.replay.Window); wi++ {
+			wc := &Chooser{path: append([]int{}, x.replay.Window[wi]...), lim: make([]int, len(x.replay.Window[wi])), fixed: true}
+			x.quiet = true
+			x.runOnce(wc, body)
+			x.quiet = false
 		}
 		for i := 0; i < n; i++ {
 			c := &Chooser{path: append([]int{}, x.replay.Path...), lim: make([]int, len(x.replay.Path)), tracing: true, fixed: true}
@@ -314,6 +326,7 @@ func (x *X) Explore(family string, opts ExploreOpts, body func(c *Chooser)) {
 		opts.ShardDepth = 1
 	}
 	x.curFamily = family
+	x.recent = nil
 	fs := x.Families[family]
 	if fs == nil {
 		fs = &FamilyStat{Exhaustive: true, Bound: opts.Bound}
@@ -375,6 +388,10 @@ func (x *X) Explore(family string, opts ExploreOpts, body func(c *Chooser)) {
 			if c.pos > fs.MaxDepth {
 				fs.MaxDepth = c.pos
 			}
+			if len(x.recent) >= 200 {
+				x.recent = x.recent[1:]
+			}
+			x.recent = append(x.recent, append([]int{}, c.path[:c.pos]...))
 			if c.tracing && v == nil {
 				if nfam(x.Samples, family) < 6 {
 					x.Samples = append(x.Samples, map[string]interface{}{"family": family, "execution": fs.Runs, "choices": append([]int{}, c.path[:c.pos]...), "steps": c.trace})
@@ -462,6 +479,17 @@ func (x *X) confirmAndRecord(v *Violation, c *Chooser, body func(c *Chooser)) {
 			if v2 != nil {
 				got = v2.Clause + ": " + v2.Detail
 			}
+			// Not reproducible on its own.  Either the harness is nondeterministic (an error), or the code under test
+			// carries state from earlier, unrelated executions of this process.  Decide by replaying the recent
+			// executions followed by this one in a FRESH process, twice.
+			if x.windowReproduces(v, path) {
+				v.Path = path
+				v.Window = append([][]int{}, x.recent...)
+				v.Tags = append(v.Tags, "depends_on_earlier_unrelated_use_in_the_same_process")
+				v.Detail = "[only after the " + fmt.Sprint(len(v.Window)-1) + " preceding executions of this process; reproduced twice in fresh processes] " + v.Detail
+				x.writeViolation(v)
+				return
+			}
 			fmt.Fprintf(os.Stderr, "harness: NONDETERMINISM: %s path=%v first=%s: %s replay=%s\n", x.Prop, path, v.Clause, v.Detail, got)
 			os.Exit(2)
 		}
@@ -469,6 +497,10 @@ func (x *X) confirmAndRecord(v *Violation, c *Chooser, body func(c *Chooser)) {
 	}
 	v.Path = path
 	v.Trace = trace
+	x.writeViolation(v)
+}
+
+func (x *X) writeViolation(v *Violation) {
 	if x.outDir != "" {
 		os.MkdirAll(x.outDir, 0o755)
 		name := filepath.Join(x.outDir, fmt.Sprintf("%s-%s-s%d-%d.replay.json", x.Prop, sanitize(x.curFamily), x.Shard, len(x.Violations)+1))
@@ -477,6 +509,36 @@ func (x *X) confirmAndRecord(v *Violation, c *Chooser, body func(c *Chooser)) {
 		os.WriteFile(name, b, 0o644)
 	}
 	x.Violations = append(x.Violations, *v)
+}
+
+// windowReproduces replays the recent executions of this family followed by path in a fresh process (twice)
+// and reports whether the last one fails with the same clause both times.
+func (x *X) windowReproduces(v *Violation, path []int) bool {
+	w := Violation{Property: x.Prop, Family: x.curFamily, Tier: x.Tier, Clause: v.Clause, Path: path, Window: x.recent}
+	dir := x.outDir
+	if dir == "" {
+		dir = os.TempDir()
+	}
+	os.MkdirAll(dir, 0o755)
+	f := filepath.Join(dir, fmt.Sprintf("window-s%d-%d.json", x.Shard, os.Getpid()))
+	b, _ := json.Marshal(w)
+	if os.WriteFile(f, b, 0o644) != nil {
+		return false
+	}
+	defer os.Remove(f)
+	exe, err := os.Executable()
+	if err != nil {
+		return false
+	}
+	for i := 0; i < 2; i++ {
+		cmd := exec.Command(exe, "replay", f)
+		cmd.Env = os.Environ()
+		out, _ := cmd.CombinedOutput()
+		if !strings.Contains(string(out), "clause="+v.Clause+" ") {
+			return false
+		}
+	}
+	return true
 }
 
 func sanitize(s string) string {
